@@ -52,7 +52,9 @@ type ShimCase struct {
 	Certs      []CertDef
 	// Initial operations are applied to the keyring before the shim is constructed (oobadd / oobaddcert only).
 	Initial       []Op
-	ConstructPlan []FaultRule `json:",omitempty"`
+	// ListsWhileLocked: the underlying agent keeps listing its identities while locked.
+	ListsWhileLocked bool        `json:",omitempty"`
+	ConstructPlan    []FaultRule `json:",omitempty"`
 	Ops           []Op
 }
 
@@ -97,7 +99,9 @@ type world struct {
 	mem    map[string]*memEntry
 	locked bool
 	pass   string
-	dead   bool // the connection to the underlying agent was destroyed by a fault
+	// upLocked mirrors the lock state of the underlying agent (it can lose its lock out of band)
+	upLocked bool
+	dead     bool // the connection to the underlying agent was destroyed by a fault
 	closed bool
 	tr     Trace
 
@@ -130,6 +134,9 @@ func keyIDFor(class string, serial uint64, key string) (string, map[string]strin
 		crit = map[string]string{critName: "a.example.com,b.example.com"}
 	case "ysshca7": // decodable but selects no rule (default touch): still a YSSHCA KeyID
 		a.Touch = 0
+	case "ysshca8": // principals encoded as null (what Marshal produces for a nil list)
+		a.Prins, a.PrinsNil = nil, true
+		a.HW, a.Touch = true, 1
 	case "missing":
 		ms := a.Members()
 		ms = append(ms[:4:4], ms[5:]...) // drop reqHost
@@ -424,6 +431,7 @@ func RunShimCase(c ShimCase) (tr Trace, err error) {
 	}
 	w.p = p
 	defer p.Close()
+	p.ListsWhileLocked = c.ListsWhileLocked
 	w.buildCerts(time.Now().Unix())
 
 	for _, op := range c.Initial {
@@ -510,6 +518,9 @@ func (w *world) oob(op Op) {
 		}
 	case "oobremoveall":
 		_ = w.p.Ring().RemoveAll()
+	case "oobunlock":
+		w.p.ForceUnlock()
+		w.upLocked = false
 	}
 }
 
@@ -643,12 +654,12 @@ func (w *world) step(i int, op Op) error {
 		case "lock":
 			w.tr.RefusedLockOps++
 			if opErr == nil {
-				w.locked, w.pass = true, op.Pass
+				w.locked, w.pass, w.upLocked = true, op.Pass, true
 			}
 		case "unlock":
 			w.tr.RefusedLockOps++
 			if opErr == nil {
-				w.locked = false
+				w.locked, w.upLocked = false, false
 			}
 		case "addhard":
 			if opErr == nil && key != nil && !w.locked {
@@ -673,12 +684,19 @@ func (w *world) step(i int, op Op) error {
 				return Errf("%s while locked returned %d identities, err %v (expected an empty list without error)", where, len(keys), opErr)
 			}
 		case "unlock":
-			if op.Pass == w.pass {
+			if op.Pass == w.pass && w.upLocked {
 				if opErr != nil {
 					return Errf("%s with the right passphrase failed: %v", where, opErr)
 				}
-				w.locked = false
+				w.locked, w.upLocked = false, false
 				w.tr.Unlocks++
+			} else if !w.upLocked {
+				// the underlying agent lost its lock behind the shim's back: it refuses the unlock,
+				// and a refused unlock leaves the shim's lock state unchanged
+				w.tr.RefusedLockOps++
+				if opErr == nil {
+					return Errf("%s succeeded although the underlying agent refused it (it is not locked any more); passphrase %q", where, op.Pass)
+				}
 			} else {
 				w.tr.WrongUnlocks++
 				if opErr == nil {
@@ -964,7 +982,7 @@ func (w *world) step(i int, op Op) error {
 		if opErr != nil {
 			return Errf("%s failed without a fault: %v", where, opErr)
 		}
-		w.locked, w.pass = true, op.Pass
+		w.locked, w.pass, w.upLocked = true, op.Pass, true
 	case "unlock":
 		if opErr == nil {
 			return Errf("%s of an unlocked agent succeeded", where)
